@@ -6,6 +6,7 @@ import (
 	"sort"
 	"strings"
 
+	"go/types"
 	"golang.org/x/tools/go/packages"
 	"golang.org/x/tools/go/ssa"
 	"golang.org/x/tools/go/ssa/ssautil"
@@ -76,14 +77,28 @@ func (l *Loaded) allFunctions(pkgPath string) map[string]*ssa.Function {
 	if sp == nil {
 		return out
 	}
-	for fn := range ssautil.AllFunctions(l.Prog) {
-		if fn.Pkg != sp || fn.Synthetic != "" && !strings.HasPrefix(fn.Synthetic, "instance of") {
-			continue
-		}
-		if fn.Origin() != nil && fn.Origin() != fn {
-			continue
+	var add func(fn *ssa.Function)
+	add = func(fn *ssa.Function) {
+		if fn == nil || len(fn.Blocks) == 0 {
+			return
 		}
 		out[funcKey(fn)] = fn
+		for _, a := range fn.AnonFuncs {
+			add(a)
+		}
+	}
+	for _, m := range sp.Members {
+		switch x := m.(type) {
+		case *ssa.Function:
+			add(x)
+		case *ssa.Type:
+			// methods of the named type (generic bodies included), both receivers
+			if n, ok := x.Type().(*types.Named); ok {
+				for i := 0; i < n.NumMethods(); i++ {
+					add(l.Prog.FuncValue(n.Method(i)))
+				}
+			}
+		}
 	}
 	return out
 }
